@@ -7,6 +7,7 @@ import (
 	"fmt"
 	"io"
 	"strings"
+	"verif/h/own"
 
 	"github.com/biogo/biogo/alphabet"
 	"github.com/biogo/biogo/io/seqio"
@@ -73,7 +74,7 @@ func Make(r Rec, q bool, protein bool, enc alphabet.Encoding) seq.Sequence {
 		s.Desc = r.Desc
 		return s
 	}
-	s := linear.NewSeq(r.Name, alphabet.BytesToLetters([]byte(r.Letters)), a)
+	s := own.NewSeq(r.Name, alphabet.BytesToLetters([]byte(r.Letters)), a)
 	s.Desc = r.Desc
 	return s
 }
